@@ -589,39 +589,67 @@ package genetics
 //@   reason effect derived from the body (modification analysis); no functional claim
 //@ func (*Genome).mutateAllNonstructural
 //@   reason effect derived from the body (modification analysis); no functional claim
+// The interface nodes of a genome: input, bias and output neurons.
+//@ pred isIO(n *network.NNode) = n.NeuronType == network.InputNeuron || n.NeuronType == network.BiasNeuron || n.NeuronType == network.OutputNeuron
 // The two other crossovers: only what C02/C10 need of them is claimed here -- a successful call returns a genome allocated by
 // this very call (the alignment law of C04 is proved for mateMultipoint only). The callees' preconditions are assumptions.
 //@ func (*Genome).mateMultipointAvg
-//@   props C02 C10
+//@   props C02 C10 C04
 //@   mode nosafety
 //@   assume_pre mateTraits, NewNNodeCopy, NewGeneCopy, nodeInsert, mateModules, newGenome
+//@   requires g != nil && og != nil && nonNilNodes(og.Nodes)
+//@   assert [io.afterIn] forall i :: 0 <= i && i < len(og.Nodes) && isIO(og.Nodes[i]) ==> (exists j :: 0 <= j && j < len(result) && result[j].Id == og.Nodes[i].Id) @ after 2 nodeInsert
+//@   assert [io.afterOut] forall i :: 0 <= i && i < len(og.Nodes) && isIO(og.Nodes[i]) ==> (exists j :: 0 <= j && j < len(result) && result[j].Id == og.Nodes[i].Id) @ after 3 nodeInsert
+//@   assert [io.atCopy] nonNilNodes(newNodes) && (forall i :: 0 <= i && i < len(og.Nodes) && isIO(og.Nodes[i]) ==> (exists j :: 0 <= j && j < len(newNodes) && newNodes[j].Id == og.Nodes[i].Id)) @ before 1 NewGeneCopy
 //@   ensures [freshChild] result1 == nil ==> result0 != nil && fresh(result0)
+//@   ensures [ioNodes] result1 == nil ==> (forall i :: 0 <= i && i < len(og.Nodes) && isIO(og.Nodes[i]) ==> (exists j :: 0 <= j && j < len(result0.Nodes) && result0.Nodes[j].Id == og.Nodes[i].Id))
 //@   loop 1:
-//@     invariant true
+//@     invariant -1 <= #idx && #idx < len(og.Nodes) && fresh(newNodes) && nonNilNodes(newNodes)
+//@     invariant [io] forall i :: 0 <= i && i <= #idx && isIO(og.Nodes[i]) ==> (exists j :: 0 <= j && j < len(newNodes) && newNodes[j].Id == og.Nodes[i].Id)
+//@     invariant [parentNodes] forall b :: wasAllocated(b) ==> Mem[*network.NNode][b] == old(Mem[*network.NNode][b])
+//@     invariant [parentIds] forall x *network.NNode :: wasAllocated(x) ==> x.Id == old(x.Id) && x.NeuronType == old(x.NeuronType)
 //@   loop 2:
-//@     invariant true
+//@     invariant fresh(newNodes) && nonNilNodes(newNodes)
+//@     invariant [io] forall i :: 0 <= i && i < len(og.Nodes) && isIO(og.Nodes[i]) ==> (exists j :: 0 <= j && j < len(newNodes) && newNodes[j].Id == og.Nodes[i].Id)
+//@     invariant [parentNodes] forall b :: wasAllocated(b) ==> Mem[*network.NNode][b] == old(Mem[*network.NNode][b])
+//@     invariant [parentIds] forall x *network.NNode :: wasAllocated(x) ==> x.Id == old(x.Id) && x.NeuronType == old(x.NeuronType)
 //@   loop 3:
 //@     invariant true
 //@   loop 4:
-//@     invariant true
+//@     invariant nonNilNodes(newNodes)
+//@     invariant [io] forall i :: 0 <= i && i < len(og.Nodes) && isIO(og.Nodes[i]) ==> (exists j :: 0 <= j && j < len(newNodes) && newNodes[j].Id == og.Nodes[i].Id)
 //@   loop 5:
-//@     invariant true
+//@     invariant nonNilNodes(newNodes)
+//@     invariant [io] forall i :: 0 <= i && i < len(og.Nodes) && isIO(og.Nodes[i]) ==> (exists j :: 0 <= j && j < len(newNodes) && newNodes[j].Id == og.Nodes[i].Id)
 //@ func (*Genome).mateSinglePoint
-//@   props C02 C10
+//@   props C02 C10 C04
 //@   mode nosafety
-//@   requires [nonEmptyParents] len(g.Genes) > 0 && len(og.Genes) > 0
 //@   assume_pre mateTraits, NewNNodeCopy, NewGeneCopy, nodeInsert, mateModules, newGenome
+//@   requires g != nil && og != nil && nonNilNodes(og.Nodes)
+//@   requires [nonEmptyParents] len(g.Genes) > 0 && len(og.Genes) > 0
+//@   assert [io.afterIn] forall i :: 0 <= i && i < len(og.Nodes) && isIO(og.Nodes[i]) ==> (exists j :: 0 <= j && j < len(result) && result[j].Id == og.Nodes[i].Id) @ after 2 nodeInsert
+//@   assert [io.afterOut] forall i :: 0 <= i && i < len(og.Nodes) && isIO(og.Nodes[i]) ==> (exists j :: 0 <= j && j < len(result) && result[j].Id == og.Nodes[i].Id) @ after 3 nodeInsert
+//@   assert [io.atCopy] nonNilNodes(newNodes) && (forall i :: 0 <= i && i < len(og.Nodes) && isIO(og.Nodes[i]) ==> (exists j :: 0 <= j && j < len(newNodes) && newNodes[j].Id == og.Nodes[i].Id)) @ before 1 NewGeneCopy
 //@   ensures [freshChild] result1 == nil ==> result0 != nil && fresh(result0)
+//@   ensures [ioNodes] result1 == nil ==> (forall i :: 0 <= i && i < len(og.Nodes) && isIO(og.Nodes[i]) ==> (exists j :: 0 <= j && j < len(result0.Nodes) && result0.Nodes[j].Id == og.Nodes[i].Id))
 //@   loop 1:
-//@     invariant true
+//@     invariant -1 <= #idx && #idx < len(og.Nodes) && fresh(newNodes) && nonNilNodes(newNodes)
+//@     invariant [io] forall i :: 0 <= i && i <= #idx && isIO(og.Nodes[i]) ==> (exists j :: 0 <= j && j < len(newNodes) && newNodes[j].Id == og.Nodes[i].Id)
+//@     invariant [parentNodes] forall b :: wasAllocated(b) ==> Mem[*network.NNode][b] == old(Mem[*network.NNode][b])
+//@     invariant [parentIds] forall x *network.NNode :: wasAllocated(x) ==> x.Id == old(x.Id) && x.NeuronType == old(x.NeuronType)
 //@   loop 2:
-//@     invariant true
+//@     invariant fresh(newNodes) && nonNilNodes(newNodes)
+//@     invariant [io] forall i :: 0 <= i && i < len(og.Nodes) && isIO(og.Nodes[i]) ==> (exists j :: 0 <= j && j < len(newNodes) && newNodes[j].Id == og.Nodes[i].Id)
+//@     invariant [parentNodes] forall b :: wasAllocated(b) ==> Mem[*network.NNode][b] == old(Mem[*network.NNode][b])
+//@     invariant [parentIds] forall x *network.NNode :: wasAllocated(x) ==> x.Id == old(x.Id) && x.NeuronType == old(x.NeuronType)
 //@   loop 3:
 //@     invariant true
 //@   loop 4:
-//@     invariant true
+//@     invariant nonNilNodes(newNodes)
+//@     invariant [io] forall i :: 0 <= i && i < len(og.Nodes) && isIO(og.Nodes[i]) ==> (exists j :: 0 <= j && j < len(newNodes) && newNodes[j].Id == og.Nodes[i].Id)
 //@   loop 5:
-//@     invariant true
+//@     invariant nonNilNodes(newNodes)
+//@     invariant [io] forall i :: 0 <= i && i < len(og.Nodes) && isIO(og.Nodes[i]) ==> (exists j :: 0 <= j && j < len(newNodes) && newNodes[j].Id == og.Nodes[i].Id)
 //@ func (*Species).reproduce
 //@   props C10 C02
 //@   mode nosafety
@@ -652,3 +680,26 @@ package genetics
 //@     invariant [cloneDone] (champCloneDone ==> gCloneAt >= 0) && (old(s.Organisms[0].superChampOffspring) > 0 && count >= old(s.Organisms[0].superChampOffspring) ==> gCloneAt >= 0) && (old(s.Organisms[0].superChampOffspring) == 0 && s.ExpectedOffspring > 5 && count >= 1 ==> gCloneAt >= 0)
 //@   loop 2:
 //@     invariant 0 <= giveup
+
+// ---- C09: the fitness every organism enters the apportionment with ------------------------------------
+// adjF: stagnation penalty, youth boost, clamp of negative values, sharing by the species size -- in this order.
+//@ spec penF(f float64, debt int) real = debt >= 1 ? f * 0.01 : f
+//@ spec boostF(f float64, age int, sig float64) real = age <= 10 ? f * sig : f
+//@ spec clampF(f float64) real = f < 0.0 ? 0.0001 : f
+//@ spec adjF(f float64, debt int, age int, sig float64, n int) real = clampF(boostF(penF(f, debt), age, sig)) / real(n)
+//@ spec debtOf(s *Species, opts *neat.Options) int = ((s.Age - s.AgeOfLastImprovement + 1) - opts.DropOffAge) == 0 ? 1 : ((s.Age - s.AgeOfLastImprovement + 1) - opts.DropOffAge)
+//@ func (*Species).adjustFitness
+//@   props C09
+//@   ufarith
+//@   mode nosafety
+//@   requires s != nil && opts != nil && len(s.Organisms) > 0 && (forall i :: 0 <= i && i < len(s.Organisms) ==> s.Organisms[i] != nil)
+//@   requires [noDuplicates] forall i, j :: 0 <= i && i < j && j < len(s.Organisms) ==> s.Organisms[i] != s.Organisms[j]
+//@   ensures [orig] forall i :: 0 <= i && i < old(len(s.Organisms)) ==> old(s.Organisms[i]).originalFitness == old(s.Organisms[i].Fitness)
+//@   ensures [shared] forall i :: 0 <= i && i < old(len(s.Organisms)) ==> old(s.Organisms[i]).Fitness == adjF(old(s.Organisms[i].Fitness), old(debtOf(s, opts)), old(s.Age), opts.AgeSignificance, old(len(s.Organisms)))
+//@   loop 1:
+//@     invariant -1 <= #idx && #idx < len(s.Organisms) && ageDebt == old(debtOf(s, opts)) && s.Age == old(s.Age) && len(s.Organisms) == old(len(s.Organisms))
+//@     invariant unchanged(s.Organisms) && sameSlice(s.Organisms, old(s.Organisms))
+//@     invariant [done] forall i :: 0 <= i && i <= #idx ==> s.Organisms[i].originalFitness == old(s.Organisms[i].Fitness) && s.Organisms[i].Fitness == adjF(old(s.Organisms[i].Fitness), ageDebt, s.Age, opts.AgeSignificance, len(s.Organisms))
+//@     invariant [todo] forall i :: #idx < i && i < len(s.Organisms) ==> s.Organisms[i].Fitness == old(s.Organisms[i].Fitness)
+//@   loop 2:
+//@     invariant true
